@@ -69,7 +69,11 @@ func instrumentedWorker() (string, error) {
 		if repo == "" {
 			repo = "/repo"
 		}
-		env := append(os.Environ(), "GOFLAGS=-mod=mod", "GOPROXY=off", "GOSUMDB=off", "GOTOOLCHAIN=local")
+		goflags := "-mod=mod"
+		if cur := os.Getenv("GOFLAGS"); strings.Contains(cur, "-modfile") {
+			goflags = cur // the driver checks another checkout (VERIF_REPO) through an alternative go.mod
+		}
+		env := append(os.Environ(), "GOFLAGS="+goflags, "GOPROXY=off", "GOSUMDB=off", "GOTOOLCHAIN=local")
 		run := func(name string, args ...string) error {
 			cmd := exec.Command(name, args...)
 			cmd.Dir = harnessDir()
